@@ -1,4 +1,8 @@
 """All proof units, in build order."""
 UNITS = [
     ("contracts.wf_machine", "ProcessTaskEvent"),
+    ("contracts.wf_machine", "ProcessWorkflowEvent"),
+    ("contracts.task_machine", "ProcessActionEvent"),
+    ("contracts.task_machine", "ProcessTaskItemEvent"),
+    ("contracts.task_machine", "TaskProcessWorkflowEvent"),
 ]
